@@ -59,6 +59,16 @@ def call(ctx, fr, f, args, kwargs):
         except Exception as e:
             raise_if(ctx, fr, True, type(e).__name__)
             return None
+    if callable(f) and not isinstance(f, (types.FunctionType,)) or (
+            isinstance(f, types.FunctionType) and not I_.interpretable(ctx, f)):
+        # library function on label strings: lifted by tabulation (exact: the real function is
+        # evaluated on every candidate string)
+        flat = list(args) + list(kwargs.values())
+        if all(isinstance(a, SAtom) or not o.is_symbolic_value(a) for a in flat):
+            keys = list(kwargs)
+            r, exc = lift(lambda *xs: f(*xs[:len(args)], **dict(zip(keys, xs[len(args):]))), *flat)
+            raise_if(ctx, fr, exc, "Other")
+            return r
     raise Unsupported("call of %r with symbolic arguments" % (f,))
 
 
@@ -155,7 +165,9 @@ def construct(ctx, fr, cls, args, kwargs):
             if isinstance(src, dict):
                 return o.make_dict(ctx, fr, list(src.items()))
             raise Unsupported("dict(%r)" % (src,))
-        return o.SDict()
+        d = o.SDict()
+        ctx.__dict__.setdefault("created_dicts", []).append(d)
+        return d
     if cls is collections.deque:
         if args:
             return compact(o.as_slist(ctx, fr, args[0])).copy()
@@ -492,6 +504,20 @@ BUILTINS = {
 # ------------------------------------------------------------------------------------------------
 def sym_method(ctx, fr, obj, name, args, kw):
     o = ops()
+    from vf.e1 import nsmodel as NS
+    if isinstance(obj, (NS.NSManagerDict, NS.NSTypeDict, NS.NSNameDict)):
+        if name == "__contains__":
+            return mkbool(o.contains(ctx, fr, obj, args[0]))
+        if name == "__getitem__":
+            return o.getitem(ctx, fr, obj, args[0])
+        if name == "__setitem__":
+            return o.setitem(ctx, fr, obj, args[0], args[1])
+        if name == "__delitem__":
+            return o.delitem(ctx, fr, obj, args[0])
+        if name == "get" and isinstance(obj, NS.NSNameDict):
+            has = NS.name_has(ctx, obj, args[0])
+            return merge(has, NS.name_get(ctx, obj, args[0]), args[1] if len(args) > 1 else None)
+        raise Unsupported("namespace dict method %s" % name)
     if isinstance(obj, SList):
         return slist_method(ctx, fr, obj, name, args, kw)
     if isinstance(obj, HeapSet):
